@@ -161,6 +161,13 @@ int main(int argc, char ** argv) {
     /* all 2^8 values, all 2^16 (thorough) / every 97th + boundaries (quick) */
     for (b = 0; b < 4; b++) for (v = 0; v < 256; v++) { case_int(8, 0, bases[b], v); if (b == 0) case_int(8, 1, 10, v); }
     for (b = 0; b < 4; b++) for (v = 0; v < 65536; v += (thorough ? 1 : 97)) { case_int(16, 0, bases[b], v); if (b == 0) case_int(16, 1, 10, v); }
+    /* bases the library does not know are printed in decimal: small values against every kind of unusual base */
+    {
+        static const int odd[] = {0, 1, 3, 7, 9, 11, 12, 15, 17, 32, 36, 100, 127};
+        static const uint64_t vals[] = {0, 1, 2, 7, 9, 10, 11, 12, 15, 16, 31, 35, 36, 99, 126, 255, 65535, 4294967295ull};
+        int j;
+        for (b = 0; b < 13; b++) for (j = 0; j < 18; j++) { case_int(32, 0, odd[b], vals[j]); case_int(64, 0, odd[b], vals[j]); case_int(8, 0, odd[b], vals[j] & 0xFF); case_int(16, 0, odd[b], vals[j] & 0xFFFF); }
+    }
     /* structured boundary set for 32 and 64 bit */
     for (w = 32; w <= 64; w += 32) for (b = 0; b < 4; b++) {
         uint64_t p;
